@@ -93,7 +93,6 @@ CLAIMED = {
          "The model is compared with every class/alias on log grids and real Domain k grids; the long-double pair sum, finiteness, <= N, limits, element-wise and ValueError "
          "predicates are evaluated on the implementation.",
          "4 C11", "Lean 4 proof (induction, geometric sums, limits) + differential correspondence; partial for Koyama/NFJC kernels"),
-}
  'C16': ("Lean theorems, value level (Model/Prism.lean): check_iff_complete, createPRISM_error_iff (ValueError exactly when a density, diameter, potential, closure, omega or the domain is missing, and then "
          "nothing is built), snapshot_wiring (rank, kT, domain, per pair closure class/flag, closure sigma = Diameter table, potential sigma = own or default, closure.potential = U(r)/kT on the r grid, "
          "omega = omega(k) rho_site on the k grid, symmetric, Fourier). Object level (Model/SysHeap.lean: potentials/closures are cells of an explicit store, PairTable assignment and deepcopy(sys) allocate, "
